@@ -435,6 +435,8 @@ class Respondent(httping.Parsent):
                     leaderParser.close()
                     break
                 (yield None)
+            # closed above: need a fresh parser for the status line after 100 Continue
+            lineParser = httping.parseLine(raw=self.msg, eols=(CRLF, LF), kind="status line")
 
         self.code = self.status = status
         self.reason = reason.strip()
